@@ -432,6 +432,35 @@ pub fn run_follow(tables: &Tables, stmt: &Statement, content: &[u8]) -> Outcome<
 }
 
 /// run the real command line program (release build in target/cli): returns (stdout lines, stderr, exit ok)
+/// the CLI binary with the given bytes on its standard input (a pipe)
+pub fn run_cli_stdin(args: &[&str], stdin: &[u8]) -> Option<(Vec<String>, String, bool)> {
+    use std::io::Write;
+    let bin = format!("{}/target/cli/release/sqlgrep", crate::core::verif_dir());
+    if !std::path::Path::new(&bin).exists() {
+        return None;
+    }
+    let mut child = std::process::Command::new(&bin).args(args).stdin(std::process::Stdio::piped()).stdout(std::process::Stdio::piped()).stderr(std::process::Stdio::piped()).spawn().ok()?;
+    {
+        let mut si = child.stdin.take()?;
+        let _ = si.write_all(stdin);
+    }
+    let out = child.wait_with_output().ok()?;
+    Some((String::from_utf8_lossy(&out.stdout).lines().map(|l| l.to_string()).collect(), String::from_utf8_lossy(&out.stderr).to_string(), out.status.success()))
+}
+
+/// a File whose bytes come from a pipe (its metadata length is 0; it cannot be rewound)
+pub fn pipe_file(content: &[u8]) -> File {
+    use std::io::Write;
+    use std::os::fd::FromRawFd;
+    let mut fds = [0i32; 2];
+    assert_eq!(unsafe { libc::pipe(fds.as_mut_ptr()) }, 0);
+    let mut w = unsafe { File::from_raw_fd(fds[1]) };
+    assert!(content.len() < 60_000, "pipe_file: content must fit the pipe buffer");
+    w.write_all(content).unwrap();
+    drop(w);
+    unsafe { File::from_raw_fd(fds[0]) }
+}
+
 pub fn run_cli(args: &[&str]) -> Option<(Vec<String>, String, bool)> {
     let bin = format!("{}/target/cli/release/sqlgrep", crate::core::verif_dir());
     if !std::path::Path::new(&bin).exists() {
